@@ -12,6 +12,7 @@ module substitutes them *after* import, so /repo needs no hooks.
 from __future__ import annotations
 
 import copy
+import math
 import os
 import re
 import sys
@@ -247,14 +248,24 @@ class VTty:
             if self.attrs[3] & ECHO:
                 self.echoed.extend(data)
 
-    def _wait(self, timeout):
-        """Block for input up to *timeout* (None = forever).  Returns True if readable."""
-        if self.inq:
+    def _expire(self, timeout):
+        """A wait that runs into its timeout: a real select never returns early, so the clock always
+        moves (by at least one ulp when the remaining timeout is below the float resolution of the
+        clock - otherwise `while monotonic() - start < timeout` would spin forever in the model only)."""
+        t = max(timeout, 0.0)
+        if t > 0.0:
+            self.clock = max(self.clock + t, math.nextafter(self.clock, math.inf))
+
+    def _wait(self, timeout, force=False):
+        """Block for input up to *timeout* (None = forever).  Returns True if readable.
+        *force*: wait for the next delivery even though some input is already queued (a read that
+        needs more bytes than are there: VMIN > len(inq), canonical mode without a complete line)."""
+        if self.inq and not force:
             return True
         if not self.pending:
             if timeout is None:
                 raise HarnessError("VTty: blocking forever with nothing pending (deadlock)")
-            self.clock += max(timeout, 0.0)
+            self._expire(timeout)
             return False
         npend = len(self.pending)
         if self.chooser is None:
@@ -270,7 +281,7 @@ class VTty:
             menu.append((0, 3))
         k, d = menu[self.chooser.choose(len(menu), "reply")]
         if k == 0:
-            self.clock += max(timeout, 0.0)
+            self._expire(timeout)
             return False
         if d == 0:
             delay = 0.0
@@ -279,23 +290,32 @@ class VTty:
         else:
             delay = (timeout * 0.98) if timeout is not None else 5.0
         if timeout is not None and delay >= timeout:
-            self.clock += max(timeout, 0.0)
+            self._expire(timeout)
             return False
         self._deliver(k, delay)
         return True
 
     # ---- calls made by the library (through the proxies below)
+    @staticmethod
+    def _copy_attrs(a):
+        """deepcopy of a termios attribute list (7 items, the last one the cc list of bytes / ints) -
+        40x faster than copy.deepcopy, which dominated query-heavy explorations."""
+        if type(a) is list and len(a) == 7 and type(a[6]) is list and \
+                all(type(x) is int for x in a[:6]) and all(type(x) in (bytes, int) for x in a[6]):
+            return a[:6] + [a[6][:]]
+        return copy.deepcopy(a)
+
     def tcgetattr(self, fd):
         n = self._enter("tcgetattr")
-        r = copy.deepcopy(self.attrs)
+        r = self._copy_attrs(self.attrs)
         self._leave(n)
         return r
 
     def tcsetattr(self, fd, when, attrs):
-        n = self._enter("tcsetattr", (when, copy.deepcopy(attrs)))
+        n = self._enter("tcsetattr", (when, self._copy_attrs(attrs)))
         if not (isinstance(attrs, list) and len(attrs) == 7):
             raise _real_termios.error("bad attrs")
-        self.attrs = copy.deepcopy(attrs)
+        self.attrs = self._copy_attrs(attrs)
         if when == _real_termios.TCSAFLUSH:
             del self.inq[:]
         self._leave(n)
@@ -329,7 +349,7 @@ class VTty:
             while b"\n" not in self.inq:
                 if not self.pending:
                     raise HarnessError("VTty: canonical read would block forever")
-                self._wait(None)
+                self._wait(None, True)
             i = self.inq.index(b"\n") + 1
             k = min(i, nbytes)
         else:
@@ -340,7 +360,7 @@ class VTty:
                 while len(self.inq) < need:
                     if not self.pending:
                         raise HarnessError("VTty: read(VMIN>0) would block forever")
-                    self._wait(None)
+                    self._wait(None, True)
             elif not self.inq and vtime > 0:
                 self._wait(vtime / 10.0)
             k = min(len(self.inq), nbytes)
@@ -466,6 +486,12 @@ class VStdout:
             raise p.exc()
 
     def _deliver(self, s):
+        if self._buf:
+            # a buffered stream keeps the order: what an interrupted write left in the buffer goes out
+            # before anything written later
+            b, self._buf = self._buf, []
+            for x in b:
+                self._deliver(x)
         if s:
             self.data.append(s)
             if self.term is not None:
@@ -605,8 +631,10 @@ def reset_world():
     u._cell_size_cache[:] = [0] * 4
     u.get_fg_bg_colors._invalidate_cache()
     u.get_terminal_name_version._invalidate_cache()
-    isk = L.common.TextImage.__dict__["_is_on_kitty"]
-    getattr(isk, "__func__", isk)._invalidate_cache()
+    isk = L.common.TextImage.__dict__.get("_is_on_kitty")
+    inv = getattr(getattr(isk, "__func__", isk), "_invalidate_cache", None)   # absent once it is no longer memoised
+    if inv is not None:
+        inv()
     ti._cell_ratio = 0.5
     ti.AutoCellRatio.is_supported = None
     B, K, I = L.image.BlockImage, L.image.KittyImage, L.image.ITerm2Image
